@@ -20,7 +20,7 @@ NA = {
 }
 
 PENDING = {p: "claim planned (DESIGN.md section 4) but its contracts are not yet written/discharging in the committed tree; not claimed until the check exists" for p in
-           ["C18"]}
+           []}
 NA.update(PENDING)
 
 checks = []
